@@ -25,6 +25,10 @@ MC_POLICY = dict(coverage=False, name="MC_Policy", module="MC_Wal.tla", cfg="MC_
                  expect_actions=WAL_STEPS + ["CrashProcess", "CrashPower"], timeout=7000)
 MC_POLICY_FSYNC = dict(coverage=False, name="MC_Policy_fsync", module="MC_Wal.tla", cfg="MC_Policy_fsync_quick.cfg",
                        cfg_thorough="MC_Policy_fsync.cfg", expect_actions=WAL_STEPS + ["CrashProcess", "CrashPower"], timeout=7000)
+MC_CRASH_SIM = dict(coverage=False, name="MC_Crash_sim", module="MC_Wal.tla", cfg="MC_Crash_deep.cfg", tiers=("thorough",),
+                    simulate=(6000, 900), workers=12, expect_actions=WAL_STEPS + ["CrashProcess", "Restart"], timeout=3000)
+MC_POLICY_SIM = dict(coverage=False, name="MC_Policy_sim", module="MC_Wal.tla", cfg="MC_Policy_deep.cfg", tiers=("thorough",),
+                     simulate=(6000, 900), workers=12, expect_actions=WAL_STEPS + ["CrashProcess", "CrashPower"], timeout=3000)
 MC_DAMAGE = dict(coverage=False, name="MC_Damage", module="MC_Wal.tla", cfg="MC_Damage_quick.cfg", cfg_thorough="MC_Damage.cfg",
                  expect_actions=WAL_STEPS + ["Restart", "Damage"], timeout=7000)
 MC_READER = dict(name="MC_Reader", module="Reader.tla", cfg="MC_Reader.cfg", expect_actions=["ReadFrame", "Header", "IntoWriter"])
@@ -55,7 +59,7 @@ RECIPES = {
     "C04": dict(
         level="model_checking",
         monitors={"C04"},
-        mc=[MC_QM, MC_CLEAN],
+        mc=[MC_QM, MC_CLEAN, MC_CRASH_SIM],
         runs=[dict(cmd="run", gen="idle:60,gc-heavy:20,positions:30,aim-gc:80", policy="always_flush"),
               dict(cmd="run", gen="idle:16,gc-heavy:6,aim-gc:16", policy="always_flush",
                    opts={"crash": "process", "tears": "aimed", "cont": True, "max-points": "400"})],
@@ -119,7 +123,7 @@ RECIPES = {
     "C02": dict(
         level="model_checking",
         monitors={"C02"},
-        mc=[MC_CRASH],
+        mc=[MC_CRASH, MC_CRASH_SIM],
         runs=[dict(cmd="run", gen="small:24,gc-heavy:8,batch:8,big:3,restarts:6,aim-gc:8,aim-roll:6,aim-batch:4,aim-block:4,aim-pin:10", policy="always_flush",
                    opts={"crash": "process", "tears": "aimed", "cont": True, "depth2": True, "max-points": "600"},
                    opts_thorough={"crash": "process", "tears": "all", "cont": True, "depth2": True, "max-points": "6000"},
@@ -135,7 +139,7 @@ RECIPES = {
     "C03": dict(
         level="model_checking",
         monitors={"C03"},
-        mc=[MC_POLICY, MC_POLICY_FSYNC],
+        mc=[MC_POLICY, MC_POLICY_FSYNC, MC_POLICY_SIM],
         runs=[dict(cmd="run", gen="small:16,gc-heavy:6,persist:16,big:2,aim-pin:4,aim-block:4,aim-gc:4",
                    policy="do_nothing,on_delay_long_fsync,always_flush,always_fsync",
                    opts={"crash": "both", "tears": "aimed", "cont": True, "max-points": "300"},
@@ -149,7 +153,7 @@ RECIPES = {
     "C12": dict(
         level="model_checking",
         monitors={"C12"},
-        mc=[MC_CRASH, MC_DAMAGE],
+        mc=[MC_CRASH, MC_DAMAGE, MC_CRASH_SIM],
         runs=[dict(cmd="run", gen="batch:30,big:4,aim-batch:10", policy="always_flush",
                    opts={"crash": "process", "tears": "aimed", "cont": True, "max-points": "800"},
                    opts_thorough={"crash": "process", "tears": "all", "cont": True, "max-points": "8000"},
